@@ -14,7 +14,8 @@ from ..lib import lograce
 
 IMPORTS = ["Base", "Config", "Limiter", "Cond", "Template"]
 EXPRS_OK = ["a", "b", "s", "p.name", "d['k']", "len(s)", "a + b", "s.upper()", "lst[0]", "p", "d", "None", "a*2", "G", "(a,b)",
-            " a", " p.name ", "\tlen(s)", "  a + b"]          # blanks around a field's expression are legal (eval skips leading blanks)
+            " a", " p.name ", "\tlen(s)", "  a + b",
+            "big", "rows"]                                    # values whose text is longer than any collection limit (1024)          # blanks around a field's expression are legal (eval skips leading blanks)
 EXPRS_BAD = ["missing", "1/0", "d['nope']", "s.nope", "boom()", "lst[9]", "a +", "exit_()"]
 LITS = ["", "x", "hello ", " = ", "é ü", "100%", "[", "] ", "a.b", "\n", "日本", "$"]
 
@@ -56,7 +57,8 @@ def frame_state(rng):
     def exit_():
         raise SystemExit("bye")
     loc = {"a": rng.choice([1, 5, -2]), "b": rng.choice([2, 10]), "s": rng.choice(["txt", "", "Zz"]), "p": P(),
-           "d": {"k": rng.choice([1, "v", [1, 2]])}, "lst": [rng.choice([7, "q"]), 2], "boom": boom, "exit_": exit_}
+           "d": {"k": rng.choice([1, "v", [1, 2]])}, "lst": [rng.choice([7, "q"]), 2], "boom": boom, "exit_": exit_,
+           "big": "select " + "c%d, " * 1 + "x" * rng.choice([1100, 1500]) + " from t;", "rows": list(range(rng.choice([300, 420])))}
     glb = {"__name__": "hostmod", "G": rng.choice([42, "gg"])}
     return loc, glb
 
